@@ -770,6 +770,27 @@ macro_rules! for_each_type {
         }
     };
 }
+/// long chains of merges of small partial states, in the three orders a streaming reduce can take
+fn long_chain<S: Acc>(seed: u64, i: u64, parts: usize, l: &mut Local) {
+    let mut r = Rng::from(&[seed, hash_str(S::NAME), 0xc4a1, i]);
+    let order = i % 3; // 0: acc + part, 1: part + acc, 2: alternating
+    let mut all: Vec<Ob> = vec![];
+    let mut acc = S::new_();
+    for j in 0..parts {
+        let n = 1 + r.below(3) as usize;
+        let os = gen_obs(&mut r, n, false);
+        let part = S::from_iter_(&os);
+        all.extend(os.iter().cloned());
+        acc = match (order, j % 2) {
+            (0, _) | (2, 0) => acc.add_(part),
+            _ => part.add_(acc),
+        };
+    }
+    l.count("long merge chains judged");
+    l.nontrivial(mix(&[seed, i, hash_str(S::NAME), parts as u64]));
+    compare::<S>(["long-chain(acc+part)", "long-chain(part+acc)", "long-chain(alternating)"][order as usize], &acc, &all, false, &|| json!({"what": "chain", "ty": S::NAME, "i": i, "parts": parts}), l);
+}
+
 /// counts beyond the integer range of the element type (2^24 for f32, 2^53 for f64): states of that
 /// size are reached in a few doubling merges, then fed one by one and merged with small states
 fn large_counts(l: &mut Local) {
@@ -849,6 +870,10 @@ pub fn run(run: &Arc<Run>) {
             "rayon" => run_rayon(seed, case["i"].as_u64().unwrap(), &mut l),
             "order" => crate::props::purity::order_independence("interleaved queries", seed, case["i"].as_u64().unwrap(), &mut l),
             "large-count" => large_counts(&mut l),
+            "chain" => {
+                let (ty, i, parts) = (case["ty"].as_str().unwrap_or(""), case["i"].as_u64().unwrap(), case["parts"].as_u64().unwrap() as usize);
+                for_each_type!(ty, long_chain, seed, i, parts, &mut l);
+            }
             _ => {}
         }
         run.absorb(l);
@@ -861,6 +886,13 @@ pub fn run(run: &Arc<Run>) {
         large_counts(&mut l);
         run.absorb(l);
     }
+    // long chains (a streaming reduce over thousands of small partial states)
+    let nchain = run.cfg.by(60u64, 1200);
+    run.par(nchain, |i, l| {
+        let ty = ["Arithmetic<f32>", "Arithmetic<f64>", "Geometric<f32>", "Harmonic<f32>", "Paired<f64>", "Unpaired<f64>"][(i / 3 % 6) as usize];
+        let parts = if i % 5 == 0 { 100_000 } else { 20_000 };
+        for_each_type!(ty, long_chain, seed, i, parts, l);
+    });
     // (i)
     let nprog = run.cfg.by(20_000u64, 600_000);
     run.par(nprog, |i, l| {
@@ -934,6 +966,7 @@ pub fn run(run: &Arc<Run>) {
         "exact-data history compared bit-for-bit".into(),
         "compared: empty multiset".into(),
         "order-independence groups judged".into(),
+        "long merge chains judged".into(),
         "large-count states judged (2^24 / 2^53 observations)".into(),
     ];
     for t in TYPES {
